@@ -160,7 +160,9 @@ func nonBlockingRead(conn *turbotunnel.QueuePacketConn, size int) string {
 	for spins := 0; ; spins++ {
 		select {
 		case r := <-done:
-			return printRead(r)
+			res := printRead(r)
+			scribble(r.buf) // the reader owns its buffer again; nothing queued may depend on it
+			return res
 		default:
 		}
 		if spins < 50 {
